@@ -1,5 +1,6 @@
 """C20 — offline utilities agree with the library and the format.
 
+ R7.spec(off)   ncoffsets' own header parser equals the specification grammar as well.
  R7.spec(val)   ncvalidator's own header parser, summarised per version from its CFG, equals the specification grammar,
                 hence also the library's encoder/decoder (which C03/C04 compare with the same grammar).
  R7.len(val)    ncvalidator's header-size function adds up the fields its parser reads.
@@ -319,6 +320,10 @@ def run(ctx):
     val = r7.family(vprog, r7.VAL, "val")
     ctx.require(all(p in val for p in r7.PRODS), "ncvalidator: parser functions missing: %s" % [p for p in r7.PRODS if p not in val])
     r7.check_spec(ctx, "R7.spec", val, "validator", vprog, r7.VAL)
+    oprog = ctx.program(names=["ncoffsets.c"])
+    off = r7.family(oprog, r7.OFFT, "off")
+    ctx.require(all(p in off for p in r7.PRODS), "ncoffsets: parser functions missing: %s" % [p for p in r7.PRODS if p not in off])
+    r7.check_spec(ctx, "R7.spec", off, "ncoffsets", oprog, r7.OFFT)
     check_sticky(ctx, vprog)
     dprog = ctx.program(names=["ncmpidiff.c", "cdfdiff.c"])
     total = 0
